@@ -117,10 +117,16 @@ def gen_spec(rng, tier="quick", for_crash=False):
             o[k] = {"fn": [rng.choice(COLORS), rng.choice(COLORS)]}     # a function of the datum (by width parity)
     if rng.random() < 0.2:
         o["latex"] = {k: v for k, v in {"tickCross": rng.random() < 0.5, "linkThickness": rng.choice(["thin", "very thick"]),
+                                        "borderThickness": rng.choice(["thin", "very thick", "ultra thick"]), "axisThickness": rng.choice(["thick", "very thick"]),
+                                        "tickThickness": rng.choice(["thin", "thick"]),
                                         "reproducible": rng.random() < 0.5, "fontsize": rng.choice(["11pt", "10pt"]),
                                         "preamble": rng.choice(["", "\\usepackage{lmodern}"])}.items() if rng.random() < 0.6}
     if rng.random() < 0.1:
         o["textXOffset"] = rng.choice(["0.15em", "0.3em"])
+    if rng.random() < 0.1:
+        o["textYOffset"] = rng.choice(["0.85em", "1em"])
+    if rng.random() < 0.15:      # the text of a label comes from a caller-supplied function of the datum (or from the "text" key when None)
+        o["textFn"] = rng.choice([None, {"fn": "upper"}, {"fn": "bracket"}])
     if kind != "time" and rng.random() < 0.2:   # explicit domain covering the data
         if kind == "number":
             o["domain"] = [min(ts) - 1, max(ts) + 2.5]
@@ -133,6 +139,18 @@ def gen_spec(rng, tier="quick", for_crash=False):
     if for_crash:
         opt_mode = rng.choice(["given", "given", "none", "empty", "omitted"])
     return {"kind": kind, "data": data, "options": o, "opt_mode": opt_mode}
+
+
+TEXT_FNS = {"upper": lambda d: d["text"].upper() if "text" in d else None,
+            "bracket": lambda d: "[" + d["text"] + "]" if d.get("text") else None}
+
+
+def text_of(spec, d):
+    """the text the label of datum `d` must show: the "text" key, or what the caller's textFn makes of the datum"""
+    fn = (spec.get("options") or {}).get("textFn") if spec.get("opt_mode", "given") == "given" or spec["kind"] == "number" else None
+    if isinstance(fn, dict):
+        return TEXT_FNS[fn["fn"]](d)
+    return d.get("text")
 
 
 def build_args(spec):
@@ -155,6 +173,8 @@ def build_args(spec):
         if isinstance(o.get(k), dict):
             a, b = o[k]["fn"]
             o[k] = (lambda a, b: (lambda d: a if int(d["width"]) % 2 == 0 else b))(a, b)
+    if isinstance(o.get("textFn"), dict):
+        o["textFn"] = TEXT_FNS[o["textFn"]["fn"]]
     if kind == "number":
         o["scale"] = LinearScale()
     if "domain" in o and kind != "number":
